@@ -48,7 +48,7 @@ import (
 
 func TestMain(m *testing.M) { ev.Main(m) }
 
-var rec = ev.For("C22", "rapid-drawn (policy in 5 signed policies + None) x (Sign, SignAndEncrypt) x fixture key sizes the policy allows x server signature variant (valid / valid made by the reference / one bit flipped / truncated / empty / nil SignatureData fields / other key / other nonce / other certificate / nonce||cert order / another policy's algorithm) x ServerCertificate variant (real / another RSA certificate / ECDSA certificate / garbage bytes / empty); non-trivial = a signed policy and a response that differs from the canonical one; distinct by hash of the case")
+var rec = ev.For("C22", "rapid-drawn (policy in 5 signed policies + None) x (Sign, SignAndEncrypt) x fixture key sizes the policy allows x server signature variant (valid / valid made by the reference / one bit flipped / truncated / empty / nil SignatureData fields / other key / other nonce / other certificate / nonce||cert order / another policy's algorithm) x ServerCertificate variant (real / another RSA certificate / ECDSA certificate / garbage bytes / empty) x ServiceResult of the CreateSessionResponse (0 in three quarters of the cases, else a Good-but-not-0, Uncertain or Bad code); non-trivial = a signed policy and a response that differs from the canonical one; distinct by hash of the case")
 
 // ---------------------------------------------------------------------------
 // case
@@ -66,7 +66,13 @@ type caseT struct {
 	AltAlg     int    `json:"alt_alg"`      // sig=other-alg: which of the foreign algorithms
 	GarbageHex string `json:"garbage_hex"`  // cert=garbage: the bytes
 	NilSlices  bool   `json:"empty_as_nil"` // empty variants use nil instead of a zero-length slice
+	// Result is the ServiceResult of the CreateSessionResponse (0 = Good). A
+	// response with a non-zero result is never "the canonical one": only the
+	// safety direction (no session without a verified signature, no panic) is judged.
+	Result uint32 `json:"service_result,omitempty"`
 }
+
+var resultMenu = []uint32{0x002E0000 /* GoodCompletesAsynchronously */, 0x002D0000 /* GoodSubscriptionTransferred */, 0x40000000 /* Uncertain */, 0x408F0000, 0x80010000 /* BadUnexpectedError */, 0x80AB0000}
 
 var sigVariants = []string{"valid", "valid-ref", "flip", "truncated", "empty", "nil", "other-key", "other-nonce", "other-cert", "swapped", "other-alg"}
 var certVariants = []string{"real", "other-rsa", "ecdsa", "garbage", "empty"}
@@ -232,6 +238,9 @@ func genCase(t *rapid.T) caseT {
 	c.FlipBit = rapid.IntRange(0, 1<<15).Draw(t, "flip")
 	c.AltAlg = rapid.IntRange(0, 1).Draw(t, "altalg")
 	c.NilSlices = rapid.Bool().Draw(t, "nilslices")
+	if rapid.IntRange(0, 3).Draw(t, "nonzeroResult") == 0 {
+		c.Result = rapid.SampledFrom(resultMenu).Draw(t, "result")
+	}
 	if c.Cert == "garbage" {
 		real := keys.Get("b", c.ServerBits).Cert
 		var g []byte
@@ -416,6 +425,9 @@ func execute(c caseT) (*outcome, error) {
 				_ = conn.Respond(reqID, script.Fault(req, ua.StatusBadInternalError))
 				return true
 			}
+			if c.Result != 0 {
+				resp.ResponseHeader.ServiceResult = ua.StatusCode(c.Result)
+			}
 			o.sawCreate = true
 			o.clientNonce = append([]byte{}, r.ClientNonce...)
 			o.sentCert = append([]byte{}, resp.ServerCertificate...)
@@ -511,7 +523,7 @@ func judge(c caseT, o *outcome) (msg string, valid bool, realCert bool) {
 	}
 	// a server that does prove its identity with the certificate the channel was
 	// opened with must be accepted (otherwise "reject everything" would pass)
-	if o.connectErr != nil && ((secured && valid && realCert) || (!secured && c.Sig == "valid" && c.Cert == "real")) {
+	if c.Result == 0 && o.connectErr != nil && ((secured && valid && realCert) || (!secured && c.Sig == "valid" && c.Cert == "real")) {
 		return fmt.Sprintf("Connect failed with %v although the response is the canonical, correctly signed one", o.connectErr), valid, realCert
 	}
 	return "", valid, realCert
@@ -524,6 +536,15 @@ func classes(c caseT, o *outcome, valid, realCert bool) []string {
 	res := "rejected"
 	if o.connectErr == nil {
 		res = "connected"
+	}
+	switch {
+	case c.Result == 0:
+	case c.Result&0x80000000 != 0:
+		cl = append(cl, "service-result:bad/"+res)
+	case c.Result&0x40000000 != 0:
+		cl = append(cl, "service-result:uncertain/"+res)
+	default:
+		cl = append(cl, "service-result:good-but-not-0/"+res)
 	}
 	switch {
 	case c.Policy == "None":
